@@ -1,6 +1,9 @@
 package fzf
 
 import (
+	"strings"
+
+	"github.com/junegunn/fzf/src/util"
 	"github.com/junegunn/fzf/src/zzv"
 )
 
@@ -46,4 +49,73 @@ func zzH_C12_esq() {
 		ok = false
 	}
 	zzv.Assert("one-word-equal-to-input", ok && closed && i == len(q) && string(out) == s)
+}
+
+func init() {
+	zzHarnesses["zzH_C12_expand"] = zzH_C12_expand
+}
+
+var zzItemAlphabet = []byte{'\'', 'a', ' ', '$', ';', '\\'}
+
+// H12.expand: the placeholder callback of replacePlaceholder (lifted from the current source):
+// each placeholder expands to shell words that evaluate back to the original texts - one word per
+// item, in the order given; {n} is the ordinal; an escaped placeholder stays literal; a raw
+// placeholder earlier in the same template does not change what a quoting one expands to.
+func zzH_C12_expand() {
+	ex := util.NewExecutor("")
+	mk := func(idx int32) *Item {
+		n := zzv.Choose(0, zzv.CfgInt("nmax"))
+		b := make([]byte, n)
+		for i := range b {
+			b[i] = zzItemAlphabet[zzv.Below(len(zzItemAlphabet))]
+		}
+		it := &Item{text: util.ToChars(b)}
+		it.text.Index = idx
+		return it
+	}
+	cur := mk(7)
+	sel1, sel2 := mk(3), mk(5)
+	query := "q'$"
+	env := &zzEnv_expand{params: replacePlaceholderParams{
+		delimiter: Delimiter{}, printsep: "\n", query: query,
+		allItems: []*Item{cur, sel1, sel2}, executor: ex, prompt: "> "}}
+	// as the prologue of replacePlaceholder sets them
+	env.current = env.params.allItems[:1]
+	env.selected = env.params.allItems[1:]
+	expand := zzLift_expand(env)
+	words := func(s string) ([]string, bool) {
+		w, active, open := util.ZZShWords(s, false)
+		return w, !active && !open
+	}
+	if zzv.Bool() {
+		// a raw placeholder used earlier in the same template
+		raw := expand("{r}")
+		zzv.Assert("raw-is-item-text", raw == cur.AsString(false))
+	}
+	zzv.Reach("called")
+	switch zzv.Choose(0, 5) {
+	case 0:
+		w, safe := words(expand("{}"))
+		zzv.Assert("current-item-one-word", safe && len(w) == 1 && w[0] == cur.AsString(false))
+	case 1:
+		w, safe := words(expand("{+}"))
+		zzv.Assert("selected-items-in-order", safe && len(w) == 2 && w[0] == sel1.AsString(false) && w[1] == sel2.AsString(false))
+	case 2:
+		w, safe := words(expand("{q}"))
+		zzv.Assert("query-one-word", safe && len(w) == 1 && w[0] == query)
+	case 3:
+		zzv.Assert("ordinal", expand("{n}") == "7" && expand("{+n}") == "3 5")
+	case 4:
+		zzv.Assert("escaped-stays-literal", expand("\\{}") == "{}" && expand("\\{q}") == "{q}")
+	case 5:
+		// field expression: first field of the current item, trimmed
+		w, safe := words(expand("{1}"))
+		txt := cur.AsString(false)
+		toks := Tokenize(txt, Delimiter{})
+		want := ""
+		if len(toks) > 0 {
+			want = strings.TrimSpace(toks[0].text.ToString())
+		}
+		zzv.Assert("field-one-word", safe && len(w) == 1 && w[0] == want)
+	}
 }
